@@ -58,6 +58,28 @@ CLAIMS = {
             "False / empty runs) and plain strs: ==, !=, reversed ==, hash, set/dict membership recorded with both terminal "
             "strings and validated by TLC; repr is shape-checked (ast) and evaluated in a namespace of only the fmtfuncs names.",
             TRUST + "Python's eval/ast for the repr expression.", "5/C19"),
+    "C10": ("TLA+ column model (Width.tla: Cols / AbsWsliceCols): TLC trace validation of bounded-exhaustive real "
+            "width/width_at_offset/width_aware_slice calls",
+            "Every layout of <=2 (quick) / <=3 (thorough) runs over narrow/double-width/combining characters, every offset and "
+            "every column range 0<=a<=b<=width+2 is executed on the real code; TLC compares the column expansion of each result "
+            "with the specification's.",
+            TRUST + "Width classes of the 7-character alphabet are a spec constant checked against cwcwidth at setup.", "5/C10"),
+    "C11": ("TLA+ wrapping predicate (Width.tla: WrapVerdict / WrapMatch): TLC trace validation of bounded-exhaustive real "
+            "width_aware_splitlines calls",
+            "Every layout (empty runs, run-less value, double-width at every alignment, zero-width after a full line) x columns "
+            "2..5; TLC checks line widths, non-emptiness and that the lines minus admissible paddings are exactly the original "
+            "cells in order.",
+            TRUST + "Width classes as for C10.", "5/C11"),
+    "C15": ("TLA+ reference str semantics (PyStr.tla split/splitlines; Python's own answer logged as environment fact for "
+            "delegated methods and regexes): TLC trace validation of real method calls",
+            "split/splitlines pieces must be exactly the cell sub-ranges the reference split gives; ljust/rjust text must agree "
+            "with str and invent no formatting; delegated methods must agree with str and carry exactly the shared formatting.",
+            TRUST + "Python str/re semantics for delegated methods and regex split are taken from Python itself.", "5/C15"),
+    "C16": ("TLA+ greedy reference wrap (Wrap.tla): TLC trace validation of bounded-exhaustive real linesplit calls",
+            "Every layout over {x,y,space,tab,newline} with formatting changes inside words and whitespace x columns 1..6; TLC "
+            "compares lines with the greedy first-fit reference, every word character with its cell, every joining space with the "
+            "whitespace it replaces.",
+            TRUST, "5/C16"),
 }
 
 NOT_BUILT = "check not built yet at this commit (planned with the same TLA+ technique, see DESIGN.md section 5)"
